@@ -173,6 +173,45 @@ def decompose(E, k, path):
         E.assume(mk_bool(z3.Implies(k == z3.Concat(path, tail(k, z3.Length(path))), starts_with(k, path))))
 
 
+brefuse = z3.Function("brefuse", IntS, SeqI, SeqI, BoolS)
+# brefuse(mode, h, k): an update of mode (0 insert, 1 delete, 2 delete-subtrie) at bit path k below h is refused
+# with NodeOverrideError.  Defined by the walk down the trie (structural recursion on k):
+#   insert          : a leaf is reached with key left (k extends a stored key), or the key ends at / inside an
+#                     interior node (k is a proper prefix of a stored key)
+#   delete          : a leaf is reached with key left, or the key ends exactly at an interior node
+#   delete-subtrie  : a leaf is reached with key left
+
+
+def unfold_brefuse(E, mode, h, k):
+    h, k = z3.simplify(h), z3.simplify(k)
+    done = E.ghost.setdefault("brefuse_unfolded", [])
+    for (m2, h2, k2) in done:
+        if m2 == mode and h2.eq(h) and k2.eq(k):
+            return
+    done.append((mode, h, k))
+    B = blank_hash(E)
+    p = parts_of(E, h)
+    lk = z3.Length(k)
+    m = z3.IntVal(mode)
+    kv_tail = z3.simplify(tail(k, z3.Length(p.path)))
+    br_tail = z3.simplify(tail(k, 1))
+    ends_here = z3.BoolVal(mode in (0, 1))
+    diverges = z3.PrefixOf(k, p.path) if mode == 0 else z3.BoolVal(False)
+    if mode == 2:
+        kv_case = z3.If(lk == 0, z3.BoolVal(False),
+                        z3.If(z3.PrefixOf(p.path, k), brefuse(m, p.child, kv_tail), z3.BoolVal(False)))
+    else:
+        kv_case = z3.If(lk == 0, ends_here, z3.If(z3.PrefixOf(p.path, k), brefuse(m, p.child, kv_tail), diverges))
+    body = z3.If(h == B, z3.BoolVal(False),
+                 z3.If(p.is_leaf, lk > 0,
+                       z3.If(p.is_kv, kv_case,
+                             z3.If(p.is_branch,
+                                   z3.If(lk == 0, ends_here if mode != 2 else z3.BoolVal(False),
+                                         z3.If(k[0] == 0, brefuse(m, p.left, br_tail), brefuse(m, p.right, br_tail))),
+                                   z3.BoolVal(False)))))
+    E.assume(mk_bool(brefuse(m, h, k) == body))
+
+
 def unfold_bavail(E, H, h, k):
     B = blank_hash(E)
     p = parts_of(E, h)
